@@ -16,8 +16,9 @@ import TempestVerif.Gen.Covering
   The documented constraints are written BY HAND below (`ValidListed`, `WellTyped`) without reference to the tables;
   `C18_config_accept_iff` / `C18_construct_accept_iff` say the tables accept exactly those configurations.
 
-  Decisions: Python's `bool` is an `int`, so `True` is a valid dimension / particle count / index (the code accepts it and
-  `Valid` says so); a NaN `ess_ratio` is not `<= 0` and is accepted; an empty string is an (empty) iterable of indices.
+  Since /repo b8d82fc: a Python `bool` is NOT a valid dimension / particle count / index and the two targets must be finite
+  (`math.isfinite`): `ValidListed` says so and `C18_config_accept_iff` proves the tables agree.  `True` remains a valid
+  `ess_ratio` / `volume_variation` (the number 1); an empty string is an (empty) iterable of indices.
   "Every valid combination runs to completion" is NOT a theorem (numerics): it is executed row by row; what is proved is
   that the executed rows cover every pair (quick) / triple (thorough) of option values (`C18_covering_array_ok*`).
 -/
@@ -103,17 +104,17 @@ theorem pre_closed (c : Cfg) (d : Int) (hd : (c .n_dim).intVal? = some d) :
 
 /-! ### the documented constraints, written by hand -/
 
-/-- a positive Python `int` (`bool` is a subclass of `int`: `True` counts as 1, exactly as `isinstance` does) -/
+/-- a positive genuine Python `int` — a `bool` is NOT one (since /repo b8d82fc `validate()` excludes `isinstance(·, bool)`) -/
 def posInt : V → Bool
   | .int n => decide (0 < n)
-  | .bool b => b
   | _ => false
 
-/-- a number that is not `<= 0` -/
+/-- a positive FINITE number (int, float, or the bool `True`, which Python counts as the number 1): `> 0` and
+    `math.isfinite` — so neither `nan` nor `+inf` -/
 def posNum : V → Bool
   | .int n => decide (0 < n)
   | .bool b => b
-  | .float f => !(f.le (.fin 0))
+  | .float (.fin q) => decide (0 < q)
   | _ => false
 
 def isOneOf (v : V) (names : List String) : Bool :=
@@ -121,12 +122,16 @@ def isOneOf (v : V) (names : List String) : Bool :=
   | .str s => names.contains s
   | _ => false
 
-/-- an iterable all of whose items are Python ints `i` with `0 ≤ i < d` -/
+/-- a genuine int `k` (not a bool) with `0 ≤ k < d` -/
+def intItem (d : Int) (i : V) : Bool :=
+  match i with
+  | .int k => decide (0 ≤ k) && decide (k < d)
+  | _ => false
+
+/-- an iterable all of whose items are genuine Python ints `i` with `0 ≤ i < d` -/
 def indexList (d : Int) (v : V) : Bool :=
   match v.iter? with
-  | some l => l.all fun i => match i.intVal? with
-    | some k => decide (0 ≤ k) && decide (k < d)
-    | none => false
+  | some l => l.all (intItem d)
   | none => false
 
 /-- two index collections name a common integer -/
@@ -161,44 +166,39 @@ structure WellTyped (c : Cfg) : Prop where
 
 /-! ### bridges between the hand-written predicates and the primitive tests -/
 
-theorem posInt_iff (v : V) : posInt v = true ↔ v.isInt = true ∧ v.cmp0 .le = .ok false := by
+theorem posInt_iff (v : V) : posInt v = true ↔ v.isBool = false ∧ v.isInt = true ∧ v.cmp0 .le = .ok false := by
   cases v with
-  | int n => simp [posInt, V.isInt, V.cmp0, Cmp.int]
-  | bool b => cases b <;> simp [posInt, V.isInt, V.cmp0, Cmp.int]
+  | int n => simp [posInt, V.isBool, V.isInt, V.cmp0, Cmp.int]
+  | bool b => simp [posInt, V.isBool]
   | _ => simp [posInt, V.isInt, V.cmp0]
 
 theorem posInt_intVal {v : V} (h : posInt v = true) : ∃ d, v.intVal? = some d ∧ 0 < d := by
   cases v <;> simp_all [posInt, V.intVal?]
 
-theorem posNum_iff (v : V) : posNum v = true ↔ v.isNum = true ∧ v.cmp0 .le = .ok false := by
+theorem posNum_iff (v : V) : posNum v = true ↔ v.isNum = true ∧ v.cmp0 .gt = .ok true ∧ v.isFinite = .ok true := by
   cases v with
-  | int n => simp [posNum, V.isNum, V.cmp0, Cmp.int]
-  | bool b => cases b <;> simp [posNum, V.isNum, V.cmp0, Cmp.int]
-  | float f => simp [posNum, V.isNum, V.cmp0, FV.cmp]
+  | int n => simp [posNum, V.isNum, V.cmp0, V.isFinite, Cmp.int]
+  | bool b => cases b <;> simp [posNum, V.isNum, V.cmp0, V.isFinite, Cmp.int]
+  | float f => cases f <;> simp [posNum, V.isNum, V.cmp0, V.isFinite, FV.cmp, FV.lt]
   | _ => simp [posNum, V.isNum, V.cmp0]
 
 theorem isOneOf_iff (v : V) (l : List String) : isOneOf v l = true ↔ v.notIn l = false := by
   cases v <;> simp [isOneOf, V.notIn]
 
 
-def intItem (d : Int) (i : V) : Bool :=
-  match i.intVal? with
-  | some k => decide (0 ≤ k) && decide (k < d)
-  | none => false
-
 theorem indexList_def (d : Int) (v : V) : indexList d v = match v.iter? with | some l => l.all (intItem d) | none => false := rfl
 
 theorem idxOk_eq (d : Int) (nd : V) (hd : nd.intVal? = some d) (x : V) :
-    idxOk .le 0 .lt nd x = .ok (intItem d x) := by
-  unfold idxOk intItem
-  cases hx : x.intVal? with
-  | none => rfl
-  | some k =>
-    simp only [Cmp.int, V.cmpNum, hx, hd]
-    by_cases h : (0 : Int) ≤ k <;> simp [h]
+    idxOkStrict .le 0 .lt nd x = .ok (intItem d x) := by
+  unfold idxOkStrict intItem
+  cases x <;> try rfl
+  rename_i k
+  have hk : (V.int k).intVal? = some k := rfl
+  simp only [Cmp.int, V.cmpNum, hk, hd]
+  by_cases h : (0 : Int) ≤ k <;> simp [h]
 
 theorem allM_idx (d : Int) (nd : V) (hd : nd.intVal? = some d) (l : List V) :
-    allM (idxOk .le 0 .lt nd) l = .ok (l.all (intItem d)) := by
+    allM (idxOkStrict .le 0 .lt nd) l = .ok (l.all (intItem d)) := by
   induction l with
   | nil => rfl
   | cons x xs ih =>
@@ -206,18 +206,16 @@ theorem allM_idx (d : Int) (nd : V) (hd : nd.intVal? = some d) (l : List V) :
     cases intItem d x <;> simp
 
 theorem allIdx_iff (d : Int) (nd : V) (hd : nd.intVal? = some d) (p : V) :
-    V.allIdx p .le 0 .lt nd = .ok true ↔ indexList d p = true := by
-  unfold V.allIdx
+    V.allIdxStrict p .le 0 .lt nd = .ok true ↔ indexList d p = true := by
+  unfold V.allIdxStrict
   rw [indexList_def]
   cases h : p.iter? with
   | none => simp
   | some l => simp [allM_idx d nd hd]
 
 theorem intItem_intVal {d : Int} {x : V} (h : intItem d x = true) : ∃ k, x.intVal? = some k := by
-  unfold intItem at h
-  cases hx : x.intVal? with
-  | none => simp [hx] at h
-  | some k => exact ⟨k, rfl⟩
+  cases x <;> simp [intItem] at h
+  exact ⟨_, rfl⟩
 
 theorem hashable_of_intVal {x : V} {k : Int} (h : x.intVal? = some k) : x.hashable = true := by
   cases x <;> simp_all [V.intVal?, V.hashable]
@@ -284,12 +282,12 @@ structure RulesOK (c : Cfg) : Prop where
 theorem rules_pass_iff (c : Cfg) (d : Int) (hd : (c .n_dim).intVal? = some d) :
     (∀ r ∈ Gen.Validate.rules, eval (postCfg c d) r.cond = .ok false) ↔ RulesOK c := by
   simp only [Gen.Validate.rules, List.forall_mem_cons, List.not_mem_nil, eval_not, eval_and_false, eval_and_true, eval_or_false,
-    eval_truthy, eval_isNone, eval_isInt, eval_isNum, eval_isStr, eval_isPath, eval_isCallable, eval_notIn, eval_cmp0, eval_overlap, eval_allIdx,
+    eval_truthy, eval_isNone, eval_isInt, eval_isNum, eval_isStr, eval_isPath, eval_isCallable, eval_notIn, eval_cmp0, eval_overlap, eval_allIdx, eval_allIdxStrict, eval_isBool, eval_isFinite,
     Bool.not_false, Bool.not_true, postCfg_output_dir, postCfg_output_label, postCfg_n_particles]
   simp only [postCfg_frame, ne_eq, reduceCtorEq, not_false_eq_true, false_imp_iff, implies_true, and_true]
   constructor
-  · rintro ⟨hpt, hll, ⟨hnd1, hnd2⟩, hnp1, hnp2, hes1, hes2, hvv1, hvv2, hs, hr, hvb, hov, hper, href, hod, hol⟩
-    have hnd : posInt (c .n_dim) = true := (posInt_iff _).mpr ⟨hnd1, hnd2⟩
+  · rintro ⟨hpt, hll, ⟨hnd0, hnd1, hnd2⟩, ⟨hnp0, hnp1⟩, hnp2, hes1, ⟨hes2, hes3⟩, hvv1, hvv2, hs, hr, hvb, hov, hper, href, hod, hol⟩
+    have hnd : posInt (c .n_dim) = true := (posInt_iff _).mpr ⟨hnd0, hnd1, hnd2⟩
     have hP : (c .periodic).isNone = true ∨ indexList d (c .periodic) = true := by
       rcases hper with h | ⟨_, h⟩
       · exact Or.inl h
@@ -298,17 +296,17 @@ theorem rules_pass_iff (c : Cfg) (d : Int) (hd : (c .n_dim).intVal? = some d) :
       rcases href with h | ⟨_, h⟩
       · exact Or.inl h
       · exact Or.inr ((allIdx_iff d _ hd _).mp h)
-    refine ⟨⟨hnd, ?_, (posNum_iff _).mpr ⟨hes1, hes2⟩, ?_, (isOneOf_iff _ _).mpr hs, (isOneOf_iff _ _).mpr hr, ?_, ?_, ?_, ?_⟩, hpt, hll, ?_, ?_⟩
+    refine ⟨⟨hnd, ?_, (posNum_iff _).mpr ⟨hes1, hes2, hes3⟩, ?_, (isOneOf_iff _ _).mpr hs, (isOneOf_iff _ _).mpr hr, ?_, ?_, ?_, ?_⟩, hpt, hll, ?_, ?_⟩
     · by_cases h : (c .n_particles).isNone = true
       · exact Or.inl h
-      · simp only [h] at hnp1 hnp2
-        exact Or.inr ((posInt_iff _).mpr ⟨hnp1, hnp2⟩)
+      · simp only [h] at hnp0 hnp1 hnp2
+        exact Or.inr ((posInt_iff _).mpr ⟨hnp0, hnp1, hnp2⟩)
     · rcases hvv1 with h | ⟨h1, h2⟩
       · exact Or.inl h
-      · rcases hvv2 with (h | ⟨_, h⟩) | ⟨_, h⟩
+      · rcases hvv2 with (h | ⟨_, h⟩) | ⟨_, h3, h4⟩
         · simp [h] at h1
         · simp [h] at h2
-        · exact Or.inr ((posNum_iff _).mpr ⟨h2, h⟩)
+        · exact Or.inr ((posNum_iff _).mpr ⟨h2, h3, h4⟩)
     · rintro ⟨h1, h2⟩
       rcases hvb with h | ⟨_, h⟩
       · simp [h] at h1
@@ -338,22 +336,19 @@ theorem rules_pass_iff (c : Cfg) (d : Int) (hd : (c .n_dim).intVal? = some d) :
       · rw [hd] at hd'; cases hd'; exact Or.inr h
     obtain ⟨d', hd', hpos⟩ := posInt_intVal hnd
     rw [hd] at hd'; cases hd'
-    refine ⟨hpt, hll, (posInt_iff _).mp hnd, ?_, ?_, ((posNum_iff _).mp hes).1, ((posNum_iff _).mp hes).2, ?_, ?_,
-      (isOneOf_iff _ _).mp hs, (isOneOf_iff _ _).mp hr, ?_, ?_, ?_, ?_, ?_, ?_⟩
-    · rcases hnp with h | h
-      · simp [h, V.isInt]
-      · have := (posInt_iff _).mp h
-        by_cases h' : (c .n_particles).isNone = true
-        · simp [h', V.isInt]
-        · simp [h', this.1]
-    · rcases hnp with h | h
-      · simp only [h, if_true, V.cmp0, Cmp.int]
+    have hnpS : (if (c .n_particles).isNone = true then V.int (2 * d) else c .n_particles).isBool = false ∧
+        (if (c .n_particles).isNone = true then V.int (2 * d) else c .n_particles).isInt = true ∧
+        V.cmp0 .le (if (c .n_particles).isNone = true then V.int (2 * d) else c .n_particles) = .ok false := by
+      by_cases h' : (c .n_particles).isNone = true
+      · simp only [h', if_true, V.isBool, V.isInt, V.cmp0, Cmp.int]
         simp; omega
-      · have := (posInt_iff _).mp h
-        by_cases h' : (c .n_particles).isNone = true
-        · simp only [h', if_true, V.cmp0, Cmp.int]
-          simp; omega
-        · simp [h', this.2]
+      · simp only [h']
+        rcases hnp with h | h
+        · exact absurd h h'
+        · simpa using (posInt_iff _).mp h
+    have hesS := (posNum_iff _).mp hes
+    refine ⟨hpt, hll, (posInt_iff _).mp hnd, ⟨hnpS.1, hnpS.2.1⟩, hnpS.2.2, hesS.1, ⟨hesS.2.1, hesS.2.2⟩, ?_, ?_,
+      (isOneOf_iff _ _).mp hs, (isOneOf_iff _ _).mp hr, ?_, ?_, ?_, ?_, ?_, ?_⟩
     · rcases hvv with h | h
       · exact Or.inl h
       · have := (posNum_iff _).mp h
@@ -365,7 +360,7 @@ theorem rules_pass_iff (c : Cfg) (d : Int) (hd : (c .n_dim).intVal? = some d) :
       · have := (posNum_iff _).mp h
         by_cases h' : (c .volume_variation).isNone = true
         · exact Or.inl (Or.inl h')
-        · exact Or.inr ⟨⟨by simpa using h', this.1⟩, this.2⟩
+        · exact Or.inr ⟨⟨by simpa using h', this.1⟩, this.2.1, this.2.2⟩
     · by_cases h1 : (c .vectorize).truthy = true
       · by_cases h2 : (c .blobs_dtype).isNone = true
         · exact Or.inr ⟨h1, h2⟩
@@ -418,7 +413,7 @@ theorem C18_config_accept_iff (c : Cfg) :
     · rw [postCfg_n_particles]
       rcases hL.n_particles with h | h
       · simp [h, V.isInt]
-      · have := ((posInt_iff _).mp h).1
+      · have := ((posInt_iff _).mp h).2.1
         by_cases h' : (c .n_particles).isNone = true
         · simp [h', V.isInt]
         · simp [h', this]
@@ -628,25 +623,32 @@ theorem C18_wiring_cap_nonneg (c : Cfg) (w : Wired) (h : wire Gen.Ctor.wiring c 
     (n : Int) (hn : c .n_max_clusters = .int n) (h1 : 1 ≤ n) : ∃ m, w.maxIter = .int m ∧ 0 ≤ m :=
   ⟨n - 1, (C18_wiring_sound c w h hc).1 n hn, by omega⟩
 
-theorem toFloat_num_le (v : V) (hn : v.isNum = true) (hp : posNum v = false) :
+/-- a number that is not `<= 0` (what `HierarchicalGaussianMixture.__init__` asks of `split_threshold`: `nan` and `+inf` pass) -/
+def notLe0 : V → Bool
+  | .int n => decide (0 < n)
+  | .bool b => b
+  | .float f => !(f.le (.fin 0))
+  | _ => false
+
+theorem toFloat_num_le (v : V) (hn : v.isNum = true) (hp : notLe0 v = false) :
     ∃ m, v.toFloat = .ok m ∧ FV.le m (.fin 0) = true := by
   cases v with
   | int n =>
     refine ⟨_, rfl, ?_⟩
-    simp only [posNum, decide_eq_false_iff_not] at hp
+    simp only [notLe0, decide_eq_false_iff_not] at hp
     simp only [FV.le, decide_eq_true_eq]
     exact Rat.intCast_nonpos.mpr (by omega)
   | bool b =>
     cases b
     · exact ⟨_, rfl, by simp [FV.le]⟩
-    · simp [posNum] at hp
-  | float f => exact ⟨f, rfl, by simpa [posNum] using hp⟩
+    · simp [notLe0] at hp
+  | float f => exact ⟨f, rfl, by simpa [notLe0] using hp⟩
   | _ => simp [V.isNum] at hn
 
 /-- **C18 (split_threshold).**  With clustering on, a numeric `split_threshold <= 0` never gets past the constructor
     (`HierarchicalGaussianMixture.__init__` raises `ValueError`) — still before any likelihood call. -/
 theorem C18_split_threshold_rejected (c : Cfg) (hc : (c .clustering).truthy = true) (hn : (c .split_threshold).isNum = true)
-    (hp : posNum (c .split_threshold) = false) : ∀ w, wire Gen.Ctor.wiring c ≠ .ok w := by
+    (hp : notLe0 (c .split_threshold) = false) : ∀ w, wire Gen.Ctor.wiring c ≠ .ok w := by
   intro w h
   obtain ⟨_, _, _, h4, h5⟩ := C18_wiring_sound c w h hc
   obtain ⟨m, hm, hle⟩ := toFloat_num_le _ hn hp
@@ -660,7 +662,7 @@ theorem C18_split_threshold_rejected (c : Cfg) (hc : (c .clustering).truthy = tr
 /-- callees that cannot reach user code -/
 def harmlessCallees : List String :=
   ["isinstance", "callable", "type", "ValueError", "TypeError", "object.__setattr__", "Path", "warnings.warn", "errors.append",
-   "set", "set().intersection", "all", "float", "dict.fromkeys", "<expr>.join", "len", "int", "str", "list", "dict", "tuple"]
+   "set", "set().intersection", "all", "float", "math.isfinite", "dict.fromkeys", "<expr>.join", "len", "int", "str", "list", "dict", "tuple"]
 
 /-- every call made by a constructor on the path of `Sampler(...)` is harmless or is itself an analysed constructor /
     `self.validate` -/
@@ -727,7 +729,7 @@ example : construct Gen.Validate.spec Gen.Ctor.wiring Gen.Validate.wrapped examp
 example : ValidListed exampleCfg ∧ WellTyped exampleCfg := (C18_config_accept_iff _).mp (by decide +kernel)
 -- a valid non-default configuration: boundary indices, dynamic mode, string output_dir, wrapped non-callable likelihood
 example : construct Gen.Validate.spec Gen.Ctor.wiring Gen.Validate.wrapped
-    ((((((exampleCfg.set .periodic (.list [.int 0])).set .reflective (.list [.int 2, .bool true])).set .volume_variation
+    ((((((exampleCfg.set .periodic (.list [.int 0])).set .reflective (.list [.int 2, .int 1])).set .volume_variation
       (.float (.fin (1 / 2)))).set .output_dir (.str "out")).set .log_likelihood (.int 5)).set .n_max_clusters (.int 2)) = .accept := by
   decide +kernel
 -- one violation: rejected with exactly the expected message(s), in order (n_dim = 0 also makes the default n_particles 0)
@@ -744,7 +746,20 @@ example : run Gen.Validate.spec (exampleCfg.set .periodic (.list [.int 3])) =
 -- several violations at once are all reported; overlapping indices
 example : run Gen.Validate.spec (((exampleCfg.set .periodic (.list [.int 0, .int 1])).set .reflective (.list [.int 1])).set
     .ess_ratio (.int 0)) =
-    .reject ["ess_ratio must be positive, got {}", "Parameters cannot be both periodic and reflective: {}"] := by decide +kernel
+    .reject ["ess_ratio must be positive and finite, got {}", "Parameters cannot be both periodic and reflective: {}"] := by decide +kernel
+-- since /repo b8d82fc: a bool is not a dimension / count / index, and a target must be finite (they used to be accepted)
+example : run Gen.Validate.spec (exampleCfg.set .n_dim (.bool true)) = .reject ["n_dim must be positive int, got {}"] := by
+  decide +kernel
+example : run Gen.Validate.spec (exampleCfg.set .n_particles (.bool true)) = .reject ["n_particles must be int, got {}"] := by
+  decide +kernel
+example : run Gen.Validate.spec (exampleCfg.set .ess_ratio (.float (.inf false))) =
+    .reject ["ess_ratio must be positive and finite, got {}"] := by decide +kernel
+example : run Gen.Validate.spec (exampleCfg.set .ess_ratio (.float .nan)) =
+    .reject ["ess_ratio must be positive and finite, got {}"] := by decide +kernel
+example : run Gen.Validate.spec (exampleCfg.set .volume_variation (.float (.inf false))) =
+    .reject ["volume_variation ({}) must be positive and finite"] := by decide +kernel
+example : run Gen.Validate.spec (exampleCfg.set .periodic (.list [.bool true])) =
+    .reject ["periodic indices must be integers in [0, {}], got {}"] := by decide +kernel
 -- Python facts the model carries: a str particle count raises TypeError (not ValueError); an unhashable index raises TypeError
 example : run Gen.Validate.spec (exampleCfg.set .n_particles (.str "8")) = .raise .typeError := by decide +kernel
 example : run Gen.Validate.spec ((exampleCfg.set .periodic (.list [.list [.int 0]])).set .reflective (.list [.int 1])) =
